@@ -207,10 +207,33 @@ theorem real_zero : real Item.zero = 0 := by simp [real, Item.zero, midT]
 
 def PosOK (S : Item → Prop) (p : Nat) : Prop := ∃ it, S it ∧ it.pos = p
 
+/-- `p` is where an error about the token `it` is reported: its position — or, for stray text
+    (`atTextStart`, /repo ac1c871), the position of its first non-blank character -/
+def ErrAt (it : Item) (p : Nat) : Prop := it.pos = p ∨ (atTextStart it).pos = p
+
+theorem atTextStart_pos_le (it : Item) : (atTextStart it).pos ≤ it.pos := by
+  unfold atTextStart
+  split
+  · rename_i i h
+    obtain ⟨hi, _⟩ := List.findIdx?_eq_some_iff_getElem.mp h
+    show it.pos + i - it.val.length ≤ it.pos
+    omega
+  · exact Nat.le_refl _
+
+theorem ErrAt.le {it : Item} {p : Nat} (h : ErrAt it p) : p ≤ it.pos := by
+  rcases h with h | h
+  · omega
+  · have := atTextStart_pos_le it; omega
+
+theorem ErrAt.zero {p : Nat} (h : ErrAt Item.zero p) : p = 0 := by
+  have := h.le
+  have : Item.zero.pos = 0 := rfl
+  omega
+
 /-- an error position: that of an `S`-token, and on a lexer-shaped stream not that of the
     zero item a closed channel yields -/
 def ErrOK (EL : Lvl) (S : Item → Prop) (p : Nat) : Prop :=
-  PosOK S p ∧ (EL.lex → ∃ it, S it ∧ valid it ∧ it.pos = p)
+  (∃ it, S it ∧ ErrAt it p) ∧ (EL.lex → ∃ it, S it ∧ valid it ∧ ErrAt it p)
 
 def PSafe {α : Type} (AP : Prop) (EL : Lvl) (S : Item → Prop) (x : P α) (st : PState) (Q : α → PState → Prop) : Prop :=
   match x st with
@@ -475,11 +498,11 @@ theorem errorf_safe {α : Type} {I : Prop} {EL : Lvl} {S : Item → Prop} {st : 
   obtain ⟨h0, h1, hr⟩ := e.toks hi
   unfold PSafe errorf errPos
   by_cases hp0 : st.peekCount = 0
-  · simp [hp0]; exact ⟨⟨_, h0, rfl⟩, fun hl => ⟨_, h0, e.v0 hi hl, rfl⟩⟩
+  · simp [hp0]; exact ⟨⟨_, h0, Or.inl rfl⟩, fun hl => ⟨_, h0, e.v0 hi hl, Or.inl rfl⟩⟩
   · by_cases hp1 : st.peekCount = 1
-    · simp [hp1]; exact ⟨⟨_, h0, rfl⟩, fun hl => ⟨_, h0, e.v0 hi hl, rfl⟩⟩
+    · simp [hp1]; exact ⟨⟨_, h0, Or.inl rfl⟩, fun hl => ⟨_, h0, e.v0 hi hl, Or.inl rfl⟩⟩
     · have hp2 : st.peekCount = 2 := by omega
-      simp [hp2]; exact ⟨⟨_, h1, rfl⟩, fun hl => ⟨_, h1, e.v1 hi hl hp2, rfl⟩⟩
+      simp [hp2]; exact ⟨⟨_, h1, Or.inl rfl⟩, fun hl => ⟨_, h1, e.v1 hi hl hp2, Or.inl rfl⟩⟩
 
 theorem modify_safe {S : Item → Prop} {st : PState} {g : PState → PState} {Q : PUnit → PState → Prop}
     (h : Q PUnit.unit (g st)) : PSafe AP EL S (modify g : P PUnit) st Q := by
@@ -504,7 +527,14 @@ theorem unexpected_safe' {α : Type} {EL : Lvl} {S : Item → Prop} {st : PState
     (ht : S tok) (hv : EL.lex → valid tok) : PSafe AP EL S (unexpected tok : P α) st Q := by
   unfold PSafe
   rw [unexpected_eq]
-  exact ⟨⟨tok, ht, rfl⟩, fun hl => ⟨tok, ht, hv hl, rfl⟩⟩
+  exact ⟨⟨tok, ht, Or.inl rfl⟩, fun hl => ⟨tok, ht, hv hl, Or.inl rfl⟩⟩
+
+/-- `t.unexpected(atTextStart(token), ...)`: reports where the text of `tok` begins -/
+theorem unexpected_textStart_safe {α : Type} {EL : Lvl} {S : Item → Prop} {st : PState} {tok : Item} {Q : α → PState → Prop}
+    (ht : S tok) (hv : EL.lex → valid tok) : PSafe AP EL S (unexpected (atTextStart tok) : P α) st Q := by
+  unfold PSafe
+  rw [unexpected_eq]
+  exact ⟨⟨tok, ht, Or.inr rfl⟩, fun hl => ⟨tok, ht, hv hl, Or.inr rfl⟩⟩
 
 /-- `t.unexpected(token, ...)` on the token `next` has just returned -/
 theorem unexpected_safe {α : Type} {EL : Lvl} {S : Item → Prop} {st : PState} {tok : Item} {Q : α → PState → Prop}
